@@ -820,8 +820,8 @@ func (c *EvalCtx) ghostCall(name string, n *ast.CallExpr, rt types.Type) (string
 		body, _ := c.lambdaBody(fl)
 		delete(c.bound, objs[0])
 		var guards []string
-		for _, f := range vc.typeFacts(v, objs[0].Type(), "", 1) {
-			guards = append(guards, f)
+		if _, isInt := intInfoOf(objs[0].Type()); isInt {
+			guards = append(guards, vc.typeFacts(v, objs[0].Type(), "", 1)...)
 		}
 		g := "true"
 		if len(guards) > 0 {
